@@ -18,35 +18,35 @@ local macro "proj_mem" : tactic => `(tactic| (
   · intro h; exact ⟨_, h, rfl⟩))
 
 variable {os : List Obj}
-theorem mem_usersOf {x : User} : x ∈ usersOf os ↔ Obj.user x ∈ os := by
+theorem usersOf_mem {x : User} : x ∈ usersOf os ↔ Obj.user x ∈ os := by
   simp only [usersOf, List.mem_filterMap]; proj_mem
-theorem mem_tagsOf {x : Tag} : x ∈ tagsOf os ↔ Obj.tag x ∈ os := by
+theorem tagsOf_mem {x : Tag} : x ∈ tagsOf os ↔ Obj.tag x ∈ os := by
   simp only [tagsOf, List.mem_filterMap]; proj_mem
-theorem mem_recsOf {x : Recording} : x ∈ recsOf os ↔ Obj.recording x ∈ os := by
+theorem recsOf_mem {x : Recording} : x ∈ recsOf os ↔ Obj.recording x ∈ os := by
   simp only [recsOf, List.mem_filterMap]; proj_mem
-theorem mem_clipsOf {x : Clip} : x ∈ clipsOf os ↔ Obj.clip x ∈ os := by
+theorem clipsOf_mem {x : Clip} : x ∈ clipsOf os ↔ Obj.clip x ∈ os := by
   simp only [clipsOf, List.mem_filterMap]; proj_mem
-theorem mem_sesOf {x : SoundEvent} : x ∈ sesOf os ↔ Obj.soundEvent x ∈ os := by
+theorem sesOf_mem {x : SoundEvent} : x ∈ sesOf os ↔ Obj.soundEvent x ∈ os := by
   simp only [sesOf, List.mem_filterMap]; proj_mem
-theorem mem_seqsOf {x : Sequence} : x ∈ seqsOf os ↔ Obj.sequence x ∈ os := by
+theorem seqsOf_mem {x : Sequence} : x ∈ seqsOf os ↔ Obj.sequence x ∈ os := by
   simp only [seqsOf, List.mem_filterMap]; proj_mem
-theorem mem_seasOf {x : SoundEventAnnotation} : x ∈ seasOf os ↔ Obj.seAnn x ∈ os := by
+theorem seasOf_mem {x : SoundEventAnnotation} : x ∈ seasOf os ↔ Obj.seAnn x ∈ os := by
   simp only [seasOf, List.mem_filterMap]; proj_mem
-theorem mem_sqasOf {x : SequenceAnnotation} : x ∈ sqasOf os ↔ Obj.seqAnn x ∈ os := by
+theorem sqasOf_mem {x : SequenceAnnotation} : x ∈ sqasOf os ↔ Obj.seqAnn x ∈ os := by
   simp only [sqasOf, List.mem_filterMap]; proj_mem
-theorem mem_casOf {x : ClipAnnotation} : x ∈ casOf os ↔ Obj.clipAnn x ∈ os := by
+theorem casOf_mem {x : ClipAnnotation} : x ∈ casOf os ↔ Obj.clipAnn x ∈ os := by
   simp only [casOf, List.mem_filterMap]; proj_mem
-theorem mem_sepsOf {x : SoundEventPrediction} : x ∈ sepsOf os ↔ Obj.sePred x ∈ os := by
+theorem sepsOf_mem {x : SoundEventPrediction} : x ∈ sepsOf os ↔ Obj.sePred x ∈ os := by
   simp only [sepsOf, List.mem_filterMap]; proj_mem
-theorem mem_sqpsOf {x : SequencePrediction} : x ∈ sqpsOf os ↔ Obj.seqPred x ∈ os := by
+theorem sqpsOf_mem {x : SequencePrediction} : x ∈ sqpsOf os ↔ Obj.seqPred x ∈ os := by
   simp only [sqpsOf, List.mem_filterMap]; proj_mem
-theorem mem_cpsOf {x : ClipPrediction} : x ∈ cpsOf os ↔ Obj.clipPred x ∈ os := by
+theorem cpsOf_mem {x : ClipPrediction} : x ∈ cpsOf os ↔ Obj.clipPred x ∈ os := by
   simp only [cpsOf, List.mem_filterMap]; proj_mem
-theorem mem_tasksOf {x : AnnotationTask} : x ∈ tasksOf os ↔ Obj.task x ∈ os := by
+theorem tasksOf_mem {x : AnnotationTask} : x ∈ tasksOf os ↔ Obj.task x ∈ os := by
   simp only [tasksOf, List.mem_filterMap]; proj_mem
-theorem mem_matchesOf {x : Match} : x ∈ matchesOf os ↔ Obj.mtch x ∈ os := by
+theorem matchesOf_mem {x : Match} : x ∈ matchesOf os ↔ Obj.mtch x ∈ os := by
   simp only [matchesOf, List.mem_filterMap]; proj_mem
-theorem mem_cesOf {x : ClipEvaluation} : x ∈ cesOf os ↔ Obj.clipEval x ∈ os := by
+theorem cesOf_mem {x : ClipEvaluation} : x ∈ cesOf os ↔ Obj.clipEval x ∈ os := by
   simp only [cesOf, List.mem_filterMap]; proj_mem
 end proj
 
@@ -131,38 +131,38 @@ include cx
 omit f in
 theorem usersOK_of (h : st.users = tbl (·.uuid) id (usersOf os)) : UsersOK os st := by
   intro u hu; rw [h]
-  exact find_tbl (·.uuid) id cx.users (mem_usersOf.2 hu)
+  exact find_tbl (·.uuid) id cx.users (usersOf_mem.2 hu)
 
 omit cx f in
 theorem tagsOK_of (h : st.tags = tagStore (tagTable os)) : TagsOK os st := by
   intro t ht; rw [h]
   have hm : t ∈ tagTable os := by
     have : CoherentBy id (tagsOf os) := fun x _ y _ h => h
-    exact mem_dedupBy_of_coherent id this (mem_tagsOf.2 ht)
+    exact dedupBy_mem_of_coherent id this (tagsOf_mem.2 ht)
   simpa [tagStore, tagId] using find_zipIdx (tagTable os) t hm 0
 
 theorem recsOK_of (h : st.recs = (ideal os f).recs) : RecsOK f os st := by
-  intro x hx; rw [h]; exact find_tbl (·.uuid) _ cx.recs (mem_recsOf.2 hx)
+  intro x hx; rw [h]; exact find_tbl (·.uuid) _ cx.recs (recsOf_mem.2 hx)
 theorem clipsOK_of (h : st.clips = (ideal os f).clips) : ClipsOK f os st := by
-  intro x hx; rw [h]; exact find_tbl (·.uuid) _ cx.clips (mem_clipsOf.2 hx)
+  intro x hx; rw [h]; exact find_tbl (·.uuid) _ cx.clips (clipsOf_mem.2 hx)
 theorem sesOK_of (h : st.ses = (ideal os f).ses) : SesOK f os st := by
-  intro x hx; rw [h]; exact find_tbl (·.uuid) _ cx.ses (mem_sesOf.2 hx)
+  intro x hx; rw [h]; exact find_tbl (·.uuid) _ cx.ses (sesOf_mem.2 hx)
 theorem seqsOK_of (h : st.seqs = (ideal os f).seqs) : SeqsOK f os st := by
-  intro x hx; rw [h]; exact find_tbl (·.uuid) _ cx.seqs (mem_seqsOf.2 hx)
+  intro x hx; rw [h]; exact find_tbl (·.uuid) _ cx.seqs (seqsOf_mem.2 hx)
 theorem seasOK_of (h : st.seas = (ideal os f).seas) : SeasOK f os st := by
-  intro x hx; rw [h]; exact find_tbl (·.uuid) _ cx.seas (mem_seasOf.2 hx)
+  intro x hx; rw [h]; exact find_tbl (·.uuid) _ cx.seas (seasOf_mem.2 hx)
 theorem sqasOK_of (h : st.sqas = (ideal os f).sqas) : SqasOK f os st := by
-  intro x hx; rw [h]; exact find_tbl (·.uuid) _ cx.sqas (mem_sqasOf.2 hx)
+  intro x hx; rw [h]; exact find_tbl (·.uuid) _ cx.sqas (sqasOf_mem.2 hx)
 theorem casOK_of (h : st.cas = (ideal os f).cas) : CasOK f os st := by
-  intro x hx; rw [h]; exact find_tbl (·.uuid) _ cx.cas (mem_casOf.2 hx)
+  intro x hx; rw [h]; exact find_tbl (·.uuid) _ cx.cas (casOf_mem.2 hx)
 theorem sepsOK_of (h : st.seps = (ideal os f).seps) : SepsOK f os st := by
-  intro x hx; rw [h]; exact find_tbl (·.uuid) _ cx.seps (mem_sepsOf.2 hx)
+  intro x hx; rw [h]; exact find_tbl (·.uuid) _ cx.seps (sepsOf_mem.2 hx)
 theorem sqpsOK_of (h : st.sqps = (ideal os f).sqps) : SqpsOK f os st := by
-  intro x hx; rw [h]; exact find_tbl (·.uuid) _ cx.sqps (mem_sqpsOf.2 hx)
+  intro x hx; rw [h]; exact find_tbl (·.uuid) _ cx.sqps (sqpsOf_mem.2 hx)
 theorem cpsOK_of (h : st.cps = (ideal os f).cps) : CpsOK f os st := by
-  intro x hx; rw [h]; exact find_tbl (·.uuid) _ cx.cps (mem_cpsOf.2 hx)
+  intro x hx; rw [h]; exact find_tbl (·.uuid) _ cx.cps (cpsOf_mem.2 hx)
 theorem msOK_of (h : st.ms = (ideal os f).ms) : MsOK f os st := by
-  intro x hx; rw [h]; exact find_tbl (·.uuid) _ cx.ms (mem_matchesOf.2 hx)
+  intro x hx; rw [h]; exact find_tbl (·.uuid) _ cx.ms (matchesOf_mem.2 hx)
 end ok
 
 /-! ### small decoders -/
